@@ -203,6 +203,11 @@ def _save_file(
         tensor = value.const_value
         assert tensor is not None
         if tensor.nbytes < size_threshold_bytes:
+            if isinstance(tensor, ir.ExternalTensor):
+                # Keep small tensors inline like ir.save(external_data=...) does: an external
+                # tensor left as is would keep pointing at its old data file, which may not
+                # exist next to the destination. The caller restores the original tensor.
+                value.const_value = ir.external_data.convert_tensors_from_external([tensor])[0]
             continue
         tensors_to_save.append(tensor)
         values_to_save.append(value)
